@@ -87,6 +87,23 @@ pub fn gen(tier: &str, rng: &mut Rng, out: &mut Vec<String>) {
         for extra in [0usize, 1, 7] { out.push(format!("c17.break {} {} {} {}", hexd(s), flags, s.len() + extra, g.oracle)); out.push(format!("c17.split {} {} {} {}", hexd(s), flags, s.len() + extra, g.oracle)); }
         if let Some(b) = b0.get(rng.below(b0.len() as u64) as usize) { out.push(format!("c17.break {} {} {} {}", hexd(s), flags, b, g.oracle)); }
     }
+    // deep stacks carried across a split: the interpreter pre-sizes its stacks (100 main / 10 alt items), so segments are
+    // resumed with fewer, exactly as many and more items than that on either stack
+    for n in [1usize, 9, 10, 11, 12, 40] {
+        let mut sc = vec![];
+        for i in 0..n { sc.push(0x51 + (i % 16) as u8); sc.push(0x6b); }        // OP_k OP_TOALTSTACK
+        for _ in 0..n { sc.push(0x6c); }                                       // OP_FROMALTSTACK
+        sc.push(0x74);                                                         // OP_DEPTH
+        for b in [2 * n - 2, 2 * n, 2 * n + 1, 3 * n] { out.push(format!("c17.split {} 0 {} t:t:t", hexd(&sc), b)); }
+        out.push(format!("c17.split {} 0 {},{} t:t:t", hexd(&sc), 2 * n, 2 * n + n / 2));
+    }
+    for m in [31usize, 32, 33, 34, 50] {
+        let mut sc = vec![0x51, 0x52, 0x53];
+        for _ in 0..m { sc.push(0x6f); }                                       // OP_3DUP
+        sc.push(0x74);
+        for b in [3 + m - 1, 3 + m, 3 + m / 2] { out.push(format!("c17.split {} 0 {} t:t:t", hexd(&sc), b)); }
+        out.push(format!("c17.split {} 0 {},{} t:t:t", hexd(&sc), 3 + m / 2, 3 + m));
+    }
     // code separator executed in an earlier segment, signature check in a later one (recorded finding)
     out.push("c17.split 5151ab61ac 0 4 t:t:t".to_string());
     out.push("c17.split 5151ab61ac 0 3 t:t:t".to_string());
